@@ -66,6 +66,10 @@ def run(ctx: Ctx):
                     continue
                 args = list(c.args) + [k.value for k in c.keywords]
                 texty = [a for a in args if any(isinstance(x, ast.Attribute) and x.attr in ("text", "unit_str", "description") for x in ast.walk(a)) or any(isinstance(x, ast.Name) and x.id in ("unit_str", "text", "comment", "description") for x in ast.walk(a))]
+                if not texty and short == "transformer.py" and tail in ("eval", "exec", "compile", "literal_eval", "parse_expr", "sympify"):
+                    # a child token of the parse tree handed to a Python / sympy evaluator: quoted strings, unit and
+                    # description texts are tokens of the grammar, not literals of Python
+                    texty = [a for a in args if any(isinstance(x, ast.Attribute) and x.attr == "children" for x in ast.walk(a))]
                 if not texty:
                     # build_expression(tree) etc. are not text evaluators; sympify of a SCIENTIFIC_NUMBER token is checked in C01
                     continue
@@ -74,7 +78,9 @@ def run(ctx: Ctx):
                 ctx.fail(
                     "R17.a",
                     key,
-                    f"{f.qualname} hands free text `{norm(texty[0])}` to `{d}(...)`, which evaluates arithmetic in it (pint parses and computes the expression): an annotation such as `# 9**9**9` makes loading hang, and text can change what is loaded",
+                    f"{f.qualname} hands free text `{norm(texty[0])}` to `{d}(...)`, which evaluates arithmetic in it (pint parses and computes the expression): an annotation such as `# 9**9**9` makes loading hang, and text can change what is loaded"
+                    if tail in ("ureg", "Unit", "Quantity", "parse_units", "parse_expression")
+                    else f"{f.qualname} hands free text `{norm(texty[0])}` to `{d}(...)`, which reads it as Python / sympy source: ordinary annotation text (a backslash, an apostrophe, an unbalanced bracket) makes it raise, so the text of an annotation decides whether the model loads",
                     f.where(c),
                 )
                 # whatever the evaluator raises for that text must be absorbed where it is called
@@ -180,6 +186,9 @@ def run(ctx: Ctx):
 
     # ---- R17.c who may read annotations ----------------------------------------------------------------
     check_raw_text(ctx, "R17.b")
+    from .c08 import check_all_items_registered
+
+    check_all_items_registered(ctx, "R17.b")
 
     ctx.rule("R17.c", "unit, unit_str, description and comment attributes are never read by the code generators, templates, schemes or expression builder", floor=10)
     for short in NUMERIC_MODULES:
